@@ -308,12 +308,16 @@ def check_c16(tier):
     with concurrent.futures.ThreadPoolExecutor(max_workers=12) as pool:
         results = list(pool.map(do_job, jobs))
     # a time-out under the load of the parallel runs is re-tried alone, with twice the patience, before it counts as a hang
-    retried = 0
+    # (at most eight re-tries: when those still hang the others are not re-tried, a genuinely hanging binary would otherwise cost
+    # 40 s per run, one after the other)
+    retried = 0; still = 0
     for ji, res in enumerate(results):
         if res["kind"] == "hang":
+            if retried >= 8 and still == retried: continue
             wi, w, t = jobs[ji]
             ex, ins, path, full, k = work[wi]
             results[ji] = run_binary(ex, ins, path, w, t, patience=2); retried += 1
+            if results[ji]["kind"] == "hang": still += 1
     t_run = time.time() - t_run
 
     # ---- 4. compare
